@@ -1424,14 +1424,15 @@ func c02Run(tier string, seed int64, outdir string, replay string) error {
 	}
 	w.Meta.Oracles = append(w.Meta.Oracles, emit.OracleCheck{Name: "unicode.IsSpace = ascii_space below 128 (all 128)", OK: hs})
 
-	// ---- LAST (the goroutine it leaves behind keeps its registration for 2 minutes): the self-wait
-	// the model marks as ESelfWait (observation C13-obtain-owner-self-wait, not patched). A cached
-	// multi-SAN certificate is due and its bundle (under its first name) is gone; the handshake's
-	// own name has an old, expired bundle: the storage-missing branch calls
+	// ---- LAST (on a tree without fix a768045 the goroutine it leaves behind keeps its registration for
+	// 2 minutes and the run ends here): witness of the fixed finding C13-obtain-owner-self-wait. A
+	// cached multi-SAN certificate is due and its bundle (under its first name) is gone; the
+	// handshake's own name has an old, expired bundle: the storage-missing branch calls
 	// obtainOnDemandCertificate, ObtainCertAsync is a no-op (a bundle exists), the expired
-	// certificate is loaded and its maintenance (renewDynamicCertificate) waits on the obtain
-	// channel this goroutine registered itself. Model and implementation must agree on the effects up
-	// to and including the self-wait; the time-out is not waited out.
+	// certificate is loaded and its maintenance (renewDynamicCertificate) finds the obtain channel
+	// this goroutine registered itself. Before the fix it waited on it for the 2-minute time-out
+	// (and so did every other handshake for the name); now the handshake is answered at once with the
+	// cached, still unexpired certificate.
 	cs := c02Single(pols["allow-in"], 0, []c02CertSpec{
 		{Names: []string{"first.example", N}, Class: "due", Managed: true, Cached: true},
 		{Names: []string{N}, Class: "expired", Managed: true, Stored: true}}, N, true)
